@@ -88,7 +88,9 @@ def linalg_stream(ctx, quick):
             if i[0] == "ok" and np.all(np.isfinite(i[1])):
                 dets = np.asarray(d[1]) if d[0] == "ok" else None
                 ctx.count("inv:singular-not-raised")
-                if dets is not None and np.any(dets == 0):
+                # only for integer input: LAPACK's LU meets an exactly zero pivot there; for float / complex entries a rounded pivot may
+                # be tiny instead of zero, and the property does not prescribe the behaviour of inv on singular matrices
+                if dets is not None and np.any(dets == 0) and kind == "int":
                     ctx.disagree(f"C20:inv:singular-silent:n{n}", desc, "LinAlgError", "finite 'inverse' returned", replay=[desc])
             continue
         if i[0] != "ok" or not arr_close(dec_tens(am[1]), i[1], 1e-7):
@@ -332,6 +334,41 @@ def ismultiple_axes_stream(ctx, n):
             ctx.disagree("C20:is_multiple:axes", desc, exp, (r[1:3] if r[0] != "ok" else np.asarray(r[1]).tolist(), r2[1:3] if r2[0] != "ok" else np.asarray(r2[1]).tolist()), replay=[desc])
 
 
+def svd_stack_stream(ctx, n):
+    """orth / null_space without `dim` on stacks of matrices (one or two batch axes, also a single length-1 axis) and on wide
+    matrices: per matrix an orthonormal basis of the range / kernel of the right dimension"""
+    import geometer.utils as gu
+    rng = ctx.rng
+    for k in range(n):
+        batch = rng.choice([(2,), (1,), (3,), (2, 2), (4,)])
+        rows, cols = rng.choice([(3, 3), (4, 4), (5, 3), (2, 3), (1, 4), (2, 4)])
+        rank = rng.randint(1, min(rows, cols))
+        mats = []
+        for _ in range(int(np.prod(batch))):
+            while True:
+                L = np.array([[float(rng.randint(-3, 3)) for _ in range(rank)] for _ in range(rows)])
+                R = np.array([[float(rng.randint(-3, 3)) for _ in range(cols)] for _ in range(rank)])
+                M = L @ R
+                if np.linalg.matrix_rank(M) == rank:
+                    mats.append(M)
+                    break
+        A = np.stack(mats).reshape(batch + (rows, cols))
+        desc = f"orth / null_space of a stack {batch} of {rows}x{cols} matrices of rank {rank}: first {mats[0].tolist()}"
+        ctx.case(desc)
+        ctx.count("svd:stack")
+        r = call_impl(lambda: (gu.orth(A), gu.null_space(A)))
+        ok = r[0] == "ok" and np.asarray(r[1][0]).shape == batch + (rows, rank) and np.asarray(r[1][1]).shape == batch + (cols, cols - rank)
+        if ok:
+            Q = np.asarray(r[1][0]).reshape((len(mats), rows, rank))
+            N = np.asarray(r[1][1]).reshape((len(mats), cols, cols - rank))
+            for M, q, nn in zip(mats, Q, N):
+                ok = ok and np.allclose(q.conj().T @ q, np.eye(rank), atol=1e-9) and np.linalg.matrix_rank(np.hstack([q, M]), tol=1e-8) == rank \
+                    and np.allclose(M @ nn, 0, atol=1e-8) and np.allclose(nn.conj().T @ nn, np.eye(cols - rank), atol=1e-9)
+        if not ok:
+            ctx.disagree("C20:svd:stack", desc, (batch + (rows, rank), batch + (cols, cols - rank)),
+                         r[1:3] if r[0] != "ok" else (np.asarray(r[1][0]).shape, np.asarray(r[1][1]).shape), replay=[desc])
+
+
 def hat_stream(ctx, n):
     import geometer.utils as gu
     rng = ctx.rng
@@ -354,6 +391,7 @@ def hat_stream(ctx, n):
 
 
 def correspondence(ctx):
+    svd_stack_stream(ctx, ctx.budget(60, 600))
     ismultiple_axes_stream(ctx, ctx.budget(60, 600))
     linalg_stream(ctx, ctx.tier != "thorough")
     if ctx.tier == "thorough":
